@@ -323,6 +323,7 @@ class Program:
         self.consts = {}
         self.helper_attrs = []
         self.promoted = {}
+        self.constbodies = {}
         self.crate = None
         self.end = None
         import gc
@@ -350,6 +351,8 @@ class Program:
                     self.helper_attrs.append(r)
                 elif k == "promoted":
                     self.promoted[r["path"]] = r
+                elif k == "constbody":
+                    self.constbodies[r["path"]] = r
                 elif k == "crate":
                     self.crate = r
                 elif k == "end":
